@@ -5,6 +5,8 @@ import (
 	"math/rand"
 
 	"github.com/evstack/ev-node/types"
+	pb "github.com/evstack/ev-node/types/pb/evnode/v1"
+	"google.golang.org/protobuf/proto"
 
 	"verifharness/monitors"
 	"verifharness/world"
@@ -23,7 +25,7 @@ type Adv struct {
 
 // Kinds of adversarial items.
 var Kinds = []string{"forged-otherkey", "forged-pair-header", "forged-pair-data", "resigned-data-copy", "mutated-resigned", "unsigned-linked",
-	"garbage-signed", "sig-transplant", "past-height", "future-height", "wrong-chain", "own-address", "truncated", "bitflip", "random", "empty"}
+	"garbage-signed", "keyless-signer-header", "keyless-signer-data", "sig-transplant", "past-height", "future-height", "wrong-chain", "own-address", "truncated", "bitflip", "random", "empty", "structured-junk"}
 
 func signHeader(h *types.SignedHeader, k world.Keys) {
 	payload, err := h.Header.MarshalBinary()
@@ -162,6 +164,31 @@ func MakeAdv(rng *rand.Rand, p *world.Produced, kind string, i int, atk world.Ke
 		h.Signature = make([]byte, 64)
 		rng.Read(h.Signature)
 		return []Adv{mk(h, kind)}
+	case "keyless-signer-header":
+		// a header naming the proposer's address in both places, carrying NO public key and some signature bytes
+		// (built from the raw protobuf: the node's own encoder never produces this shape)
+		h := forgeHeader(p, i, atk, nil, chain, addr)
+		sig := make([]byte, 64)
+		rng.Read(sig)
+		raw := &pb.SignedHeader{Header: h.Header.ToProto(), Signature: sig, Signer: &pb.Signer{Address: addr}}
+		b, err := proto.Marshal(raw)
+		if err != nil {
+			panic(err)
+		}
+		return []Adv{{Kind: kind, Height: h.Height(), Blob: b, HdrHash: h.Hash()}}
+	case "keyless-signer-data":
+		d := types.Data{Metadata: &types.Metadata{ChainID: chain, Height: height, Time: uint64(world.GenesisTime.UnixNano())}}
+		for _, tx := range atkTxs {
+			d.Txs = append(d.Txs, tx)
+		}
+		sig := make([]byte, 64)
+		rng.Read(sig)
+		raw := &pb.SignedData{Data: d.ToProto(), Signature: sig, Signer: &pb.Signer{Address: addr}}
+		b, err := proto.Marshal(raw)
+		if err != nil {
+			panic(err)
+		}
+		return []Adv{{Kind: kind, Height: height, IsData: true, Blob: b, DataComm: monitors.Commitment(atkTxs)}}
 	case "sig-transplant":
 		h := forgeHeader(p, i, atk, atkTxs, chain, addr)
 		g := p.Header(i)
@@ -202,6 +229,16 @@ func MakeAdv(rng *rand.Rand, p *world.Produced, kind string, i int, atk world.Ke
 			a.IsData = d
 		}
 		return []Adv{a}
+	case "structured-junk":
+		var out []Adv
+		for _, b := range world.StructuredJunk(rng, p) {
+			a := Adv{Kind: kind, Blob: b}
+			if hgt, d, ok := world.DecodeBlobHeight(b); ok {
+				a.Height, a.IsData = hgt, d
+			}
+			out = append(out, a)
+		}
+		return out
 	case "random":
 		b := make([]byte, 1+rng.Intn(300))
 		rng.Read(b)
